@@ -25,9 +25,16 @@ def dry_run(root_rm, request, context=None):
             return {"refused": True, "why": "validator-raises", "depth": i, "validator": f"{type(rt.validator).__name__}:{type(e).__name__}"}
         if not ok:
             return {"refused": True, "why": "validator", "depth": i, "validator": type(rt.validator).__name__,
-                    "level": "intermediate" if isinstance(rt.func, RequestManager) else "leaf"}
+                    "level": "intermediate" if isinstance(rt.func, RequestManager) or getattr(rt.func, "__name__", "") == "apply_request" else "leaf"}
         if isinstance(rt.func, RequestManager):
             cur = rt.func
+            i += 1
+            continue
+        owner = getattr(rt.func, "__self__", None)
+        if owner is not None and getattr(rt.func, "__name__", "") == "apply_request" and isinstance(getattr(owner, "_request_manager", None), RequestManager):
+            # delegation through a component's public entry point (SimComponent.apply_request) instead of its manager object: the
+            # real dispatcher ends up in the same manager, so the walk continues there
+            cur = owner._request_manager
             i += 1
             continue
         return {"refused": False, "why": "handler", "depth": i, "validator": None}
